@@ -8,11 +8,12 @@ RULE = ("validated models (depth 0-3, all connectives, integer leaves, sharing, 
         "interval-valued interpretations in mixed value forms (leaf points, leaf sub-ranges, sub-proposition overrides) x random "
         "completions; flags: every compound node's is_tautology / is_contradiction / equation_bounds against brute-force "
         "enumeration of its children's boxes (corner evaluation when the box is too large, incl. the 16-bit extremes -32768 / 32767); non-trivial = the result contains a constant for a node whose own interpretation "
-        "entry / declaration is not constant (a derived constant); distinct by (model, interpretation)")
+        "entry / declaration is not constant (a derived constant); distinct by (model, interpretation). Every model object is additionally queried two or three times in a row with look-alike interpretations (a point and a range around it, widened / narrowed ranges, int and Bounds forms): each answer must be sound for the interpretation of THAT call")
 
-def oracle_case(res, ast, d, rng, n_comp):
+def oracle_case(res, ast, d, rng, n_comp, got=None):
     m = build(ast)
-    got = {k: v.as_tuple() for k, v in build(ast).evaluate_propositions(forms(d, rng)).items()}
+    if got is None:
+        got = {k: v.as_tuple() for k, v in build(ast).evaluate_propositions(forms(d, rng)).items()}
     for _ in range(n_comp):
         env = completion(m, d, rng)
         ref = {}
@@ -23,6 +24,70 @@ def oracle_case(res, ast, d, rng, n_comp):
                 if not (lo <= v <= hi):
                     return {"op": "evaluate_propositions", "model": ast_json(ast), "interpretation": {k: list(v) for k, v in d.items()},
                             "env": env, "problem": f"node {k}: reported bounds {(lo, hi)} do not contain its value {v} under completion {env}"}
+    return None
+
+# ---- repeated queries on ONE model object (value forms spelled out so that a replay rebuilds the same arguments)
+def enc_form(v):
+    if isinstance(v, puan.Bounds):
+        return ["bounds", int(v.lower), int(v.upper)]
+    if isinstance(v, tuple):
+        return ["tuple", int(v[0]), int(v[1])]
+    return ["np" if isinstance(v, np.integer) else "int", int(v)]
+
+def dec_form(e):
+    return puan.Bounds(e[1], e[2]) if e[0] == "bounds" else (e[1], e[2]) if e[0] == "tuple" else np.int64(e[1]) if e[0] == "np" else e[1]
+
+def related_interp(m, d, rng):
+    """an interpretation over the same keys as d that differs from it but looks alike: a point p becomes a
+    sub-range (a, p-a) or a neighbouring point, a range (a,b) becomes (a-k, b+k) / (a+k, b-k), -1 <-> -2, all
+    inside the declared bounds; given as Bounds objects / ints"""
+    out = {}
+    decl = {l.id: (int(l.bounds.lower), int(l.bounds.upper)) for l in leaves_of(m)}
+    for k, (lo, hi) in d.items():
+        if k not in decl:
+            out[k] = puan.Bounds(0, 1) if (lo, hi) == (1, 1) else rng.choice([0, 1, puan.Bounds(0, 1)]); continue
+        L, H = decl[k]
+        opts = []
+        for kk in (1, 2, 3):
+            if L <= lo - kk and hi + kk <= H: opts.append(puan.Bounds(lo - kk, hi + kk))
+            if lo + kk <= hi - kk: opts.append(puan.Bounds(lo + kk, hi - kk))
+        if lo == hi:
+            a0, a1 = max(L, lo - H), min(H, lo - L, lo // 2 + 1)
+            for a in ([a0, a0 + 1, a1 - 1, a1] + ([rng.randint(a0, a1) for _ in range(3)] if a0 <= a1 else [])):
+                if a <= lo - a and (a, lo - a) != (lo, hi) and L <= a and lo - a <= H:
+                    opts.append(puan.Bounds(a, lo - a))
+            if lo == -1 and L <= -2: opts.append(-2)
+            if lo == -2 and H >= -1: opts.append(-1)
+        if not opts or rng.random() < 0.2:
+            v = rng.randint(L, H); opts = [v, puan.Bounds(min(v, lo), max(v, hi))]
+        out[k] = rng.choice(opts)
+    return out
+
+def reuse_case(res, ast, rng, n_comp):
+    """calls evaluate_propositions several times on the same object; every answer has to be sound for ITS interpretation"""
+    m = build(ast)
+    obj = build(ast)
+    d0 = rand_interp(m, rng, p_leaf=rng.choice([0.5, 0.9]), p_comp=rng.choice([0, 0.2]), point=0.6)
+    if not d0:
+        return None
+    seq = [{k: (int(v[0]) if v[0] == v[1] and rng.random() < 0.7 else puan.Bounds(*v)) for k, v in d0.items()}]
+    for _ in range(rng.randint(1, 2)):
+        seq.append(related_interp(m, norm_interp(seq[-1]), rng))
+    prior = []
+    for f in seq:
+        d = norm_interp(f)
+        try:
+            got = {k: v.as_tuple() for k, v in obj.evaluate_propositions(dict(f)).items()}
+        except Exception as e:
+            res.count("reuse_raised:" + type(e).__name__); return None
+        bad = oracle_case(res, ast, d, rng, n_comp, got=got)
+        if bad:
+            bad["prior_calls_on_same_object"] = prior
+            bad["argument"] = {k: enc_form(v) for k, v in f.items()}
+            bad["problem"] += f" (call number {len(prior) + 1} on the same model object)"
+            return bad
+        prior = prior + [{k: enc_form(v) for k, v in f.items()}]
+    res.count("reuse_sequences")
     return None
 
 def flags_case(res, x, cap=3000):
@@ -77,6 +142,9 @@ def run(res, tier, seed):
             fresh = build(ast)
             cases.append((lambda it, fresh=fresh, d=d, obs=obs: f"({dict_term(d, it)}, {dump(fresh, it)}, {dict_term(obs, it)}, ({z(obs[fresh.id][0])}, {z(obs[fresh.id][1])}))", (ast, d)))
             res.sample({"model": repr(m), "interpretation": {k: list(v) for k, v in d.items()}, "result": {k: list(v) for k, v in obs.items()}})
+        bad = reuse_case(res, ast, rng, n_comp)
+        if bad:
+            res.violation("oracle", "evaluate_propositions returned bounds a completion contradicts: " + bad["problem"] + f" on {m!r}", bad)
         for x in all_nodes(m):
             if is_var(x):
                 continue
@@ -121,7 +189,11 @@ def replay(payload):
         return 1 if p else 0
     d = {k: tuple(v) for k, v in r["interpretation"].items()}
     m = build(ast)
-    got = {k: v.as_tuple() for k, v in build(ast).evaluate_propositions(dict(d)).items()}
+    obj = build(ast)
+    for f in r.get("prior_calls_on_same_object", []):
+        obj.evaluate_propositions({k: dec_form(e) for k, e in f.items()})
+    arg = {k: dec_form(e) for k, e in r["argument"].items()} if "argument" in r else dict(d)
+    got = {k: v.as_tuple() for k, v in obj.evaluate_propositions(arg).items()}
     ref = {}
     ref_eval_d(m, d, r["env"], ref)
     bad = [(k, got[k], sorted(ref[k])) for k in got if any(not (got[k][0] <= v <= got[k][1]) for v in ref.get(k, ()))]
